@@ -429,25 +429,22 @@ impl ForwardedStreamSink {
     }
 
     fn on_encoded_chunk(&mut self, mut data: Bytes) -> io::Result<Bytes> {
-        let mut state = match std::mem::replace(&mut self.state, SinkState::Idle) {
+        let state = match &mut self.state {
             SinkState::TransferringBodyChunked(x) => x,
             _ => unreachable!(),
         };
 
-        let to_send =
-            std::cmp::min(data.len() as u64, state.remaining_chunk_size.unwrap()) as usize;
+        let chunk_size = state.remaining_chunk_size.unwrap();
+        let to_send = std::cmp::min(data.len() as u64, chunk_size) as usize;
         let unsent = state.sink.write(data.slice(..to_send))?;
-
-        let remaining = state
-            .remaining_chunk_size
-            .take()
-            .unwrap()
-            .saturating_sub(to_send as u64);
+        // only the bytes the sink has taken are off the chunk
+        let sent = to_send - unsent.len();
+        let remaining = chunk_size - sent as u64;
         log_id!(
             trace,
             self.id,
             "Encoded chunk: {} bytes (remaining {} bytes)",
-            to_send,
+            sent,
             remaining
         );
         if remaining > 0 {
@@ -456,12 +453,16 @@ impl ForwardedStreamSink {
             self.state = SinkState::WaitingChunkSuffix(SinkWaitingChunkSuffix {
                 buffer: BytesMut::with_capacity(ENCODED_CHUNK_SUFFIX.len()),
                 terminating_chunk: false,
-                sink: state.sink,
+                sink: match std::mem::replace(&mut self.state, SinkState::Idle) {
+                    SinkState::TransferringBodyChunked(x) => x.sink,
+                    _ => unreachable!(),
+                },
             });
         }
-        self.fake_unsent = !data.is_empty();
+        // the rest is returned for the parser's sake unless the sink itself is not writable
+        self.fake_unsent = unsent.is_empty() && data.len() > to_send;
 
-        Ok(data.split_off(to_send - unsent.len()))
+        Ok(data.split_off(sent))
     }
 
     fn on_encoded_chunk_suffix(&mut self, mut data: Bytes) -> io::Result<Bytes> {
